@@ -37,7 +37,7 @@ def c20_overlay(tmpdir):
 
 def _args(tier, seed):
     if tier == "quick":
-        return ["-seed", seed, "-n", 640, "-big", 1, "-e2e", 6]
+        return ["-seed", seed, "-n", 400, "-big", 1, "-e2e", 6]
     return ["-seed", seed, "-n", 12000, "-big", 3, "-e2e", 60]
 
 
@@ -48,8 +48,44 @@ SPEC = dict(
     args=_args,
     search_args=lambda seed: ["-seed", seed, "-n", 1600, "-big", 0, "-e2e", 0],
     shard=50,
+    timeout=2400,
+    # 2 = the handler called Response.Error(c), c <> 200, and the client still read status 200
+    # (handler Error() calls are always part of the generated routes; the entry is in known_findings.json)
     patterns={2: "C20-error-noop"},
-    rule="TODO",
-    trusted_base=[KERNEL, CORR_TB],
-    assumptions=[],
+    rule="LEVEL 1 (codec, in-memory sockets through overlay-added accessors): a fixed boundary set (match_until on 20 delimiter/overlap cases; 33 raw "
+         "requests x 2 initial status codes through Request.parse; HandleFunc panics; 14 requests on and just outside each clause of the grammar G through the "
+         "whole loop client-build -> Connection.handler -> client-parse; 10 status codes through build_and_send_response; SendData and ReadData on every "
+         "length in {0..5,7,8,124..130,255..257,300,1000} x {unmasked, two keys} x {minimal, next longer length form}; truncated, close, negative-length frames; "
+         "RFC 6455 1.3 accept key) then -n seeded random cases, 16 kinds in rotation: 5/16 CRound = request drawn from G (method GET/HEAD/POST/PUT/\"\", uri, 0-5 "
+         "headers over an alphabet with ':' ' ' CR LF TAB high bytes and the multi-byte delimiters, body up to 300 bytes with delimiters) built by the bundled "
+         "client code (Request.init, SetHeaders, send), served by Connection.handler with 0-5 registered patterns (the uri, proper prefixes, extensions, '/', "
+         "others; handlers record what they see, call End and sometimes Error) and read back by the client-side parser; 1/16 the same with a request just OUTSIDE "
+         "G (model-vs-code only); 1/16 Request.send alone; 1/16 Request.parse on damaged requests and delimiter soup; 1/16 build_and_send_response with arbitrary "
+         "status/version/headers; 1/16 match_until; 1/16 SendData; 2/16 ReadData on streams of 1-5 frames (half well-formed only: masked/unmasked, longer length "
+         "forms, RSV bits; half with FIN-clear/close/other opcodes/lying or negative length fields/truncation); maskBytes, computeAcceptKey (digest from the driver's "
+         "crypto/sha1 as the oracle for H), tokenListContainsValue, Upgrade with perturbed headers. Large messages: quick 65535, 65536 through SendData and a masked "
+         "65536 through ReadData; thorough also 65534, 65537, 70000, 128 KiB, 200 KiB, ~300 KiB, masked and not, sequences across the boundary, SendData->ReadData loops. "
+         "LEVEL 2 (-e2e N, one stack with a loopback NIC, stack.Pstack set by the driver, bundled http.Server + http.Client + websocket.Client/Upgrade over the stack's "
+         "own TCP): 2N/3 HTTP exchanges with requests of G and random route tables; N/3 WebSocket sessions (1-4 messages each way of lengths {0,1,125,126,127,200,1000}, "
+         "client frames sent with the bundled Push (unmasked) or as raw masked frames on the same connection, lock-step and burst); thorough adds sessions with 65535/65536/"
+         "65537-byte and 200 KiB messages both ways. Payloads CHOSEN by the driver above 256 bytes are pattern bytes regenerated inside Coq from (n, seed); everything the "
+         "implementation RETURNS is written out in full. A case is non-trivial unless its input is empty (tag = case kind / branch class); distinct = distinct case lines",
+    trusted_base=[KERNEL, CORR_TB, "Print Assumptions: every C20 theorem is closed under the global context (no axioms)",
+                  "modelled, not verified: protocol/application/http/{pkg,request,request_client,response,server_patttern,connection}.go and "
+                  "protocol/application/websocket/{conn,utils,upgrade}.go (hand-written Gallina models Model/Http.v, Model/Ws.v, Model/Base64.v, tied by the differential run)",
+                  "SHA-1 (crypto/sha1) is NOT modelled or re-proved: it is a Section variable H in the theorems (only 'a digest is 20 bytes' is assumed) and an oracle value "
+                  "computed by the driver with crypto/sha1 in the cases; encoding/base64 is modelled (Model/Base64.v) and proved against an RFC 4648 decoder",
+                  "overlay-added accessors (harness/overlay/c20_*.go.txt: thin wrappers + an in-memory internal/socket.Socket whose Readn fails instead of blocking); "
+                  "stack/stackinit/init.go is built with `func init()` renamed (no TAP device at import time) and websocket/client.go without `import \"C\"` -- both "
+                  "copies are generated from the current tree on every run",
+                  "the transport is not in the theorems: the TCP byte stream is taken to deliver exactly what was written (properties C01/C02); the end-to-end cases "
+                  "exercise it on a loopback NIC but lost/early wake-ups of the bundled socket glue (exchange hangs or reads nothing) are retried and only counted",
+                  "not modelled: Unicode (non-ASCII) white space in strings.TrimSpace and non-ASCII case folding in strings.EqualFold (generators use ASCII there); "
+                  "allocation failure of make([]byte, n) for huge positive n (memory unbounded in the model; the driver never announces more than it sends except >= 2^63)"],
+    assumptions=["a request fits one TCP segment and is read with one Read (the HTTP layer reads a message with a single receive)",
+                 "the connection is fresh: status_code 200 and an empty Request, as NewCon/newRequest create them",
+                 "WebSocket payload length < 2^63 (the 64-bit length field is read into an int64; larger values panic in make -- modelled as WPanic)",
+                 "header names are compared byte-wise (Go map keys): 'Sec-WebSocket-Key' and 'sec-websocket-key' are different headers for Upgrade",
+                 "a message larger than the TCP send buffer is silently truncated by ServerSocket.Write/Client.Write ignoring the short write; end-to-end messages stay below it "
+                 "and are sent in lock-step"],
 )
